@@ -588,3 +588,83 @@ pub fn record_opt(rest: &[String]) -> anyhow::Result<()> {
     println!("{}", json!({"programs": n, "static_rejected": statics, "frozen_variants": frozen_n}));
     Ok(())
 }
+
+/// vh replay frz <cases.ndjson> <out.ndjson>: case {"id","a":ast,"loaded":[names],"mods":[[chunk...]...]}
+/// Module A is evaluated and frozen; each importer is a fresh module that load()s the names
+/// and evaluates its chunks one after another on one evaluator.
+pub fn replay_frozen(rest: &[String]) -> anyhow::Result<()> {
+    use starlark::environment::Module;
+    use starlark::eval::Evaluator;
+    use starlark::eval::ReturnFileLoader;
+    use starlark::syntax::AstModule;
+    let cases = util::read_ndjson(&rest[0])?;
+    let mut out = util::NdWriter::create(&rest[1])?;
+    let globals = run::globals();
+    for c in cases {
+        let id = c["id"].clone();
+        let r = util::catch(std::panic::AssertUnwindSafe(|| -> Result<J, String> {
+            let mut a = c["a"].clone();
+            let src_a = print::module(&mut a);
+            run::OUT.with(|o| o.borrow_mut().clear());
+            let ast = AstModule::parse("a.star", src_a.clone(), &run::dialect()).map_err(|e| format!("{}", e))?;
+            let (frozen, a_err) = Module::with_temp_heap(|module| {
+                let e = {
+                    let mut eval = Evaluator::new(&module);
+                    match eval.eval_module(ast, &globals) {
+                        Ok(_) => (String::new(), 0, String::new()),
+                        Err(e) => run::err_of(&e),
+                    }
+                };
+                (module.freeze().map_err(|e| format!("{:?}", e)), e)
+            });
+            let a_out = run::OUT.with(|o| std::mem::take(&mut *o.borrow_mut()));
+            let frozen = frozen?;
+            let mut mods_res = Vec::new();
+            let names: Vec<String> = c["loaded"].as_array().unwrap().iter().map(|x| x.as_str().unwrap().to_owned()).collect();
+            let load_line = format!("load(\"a\", {})\n", names.iter().map(|n| format!("\"{}\"", n)).collect::<Vec<_>>().join(", "));
+            let mut table = std::collections::HashMap::new();
+            table.insert("a", &frozen);
+            let loader = ReturnFileLoader { modules: &table };
+            for m in c["mods"].as_array().unwrap() {
+                let mut chunks: Vec<J> = m.as_array().cloned().unwrap_or_default();
+                let res = Module::with_temp_heap(|module| {
+                    let mut eval = Evaluator::new(&module);
+                    eval.set_loader(&loader);
+                    let mut res = Vec::new();
+                    for (i, ch) in chunks.iter_mut().enumerate() {
+                        let body = print::module(ch);
+                        let src = if i == 0 { format!("{}{}", load_line, body) } else { body };
+                        run::OUT.with(|o| o.borrow_mut().clear());
+                        let r = util::catch(std::panic::AssertUnwindSafe(|| {
+                            let ast = AstModule::parse("b.star", src.clone(), &run::dialect())?;
+                            eval.eval_module(ast, &globals).map(|_| ())
+                        }));
+                        let o = run::OUT.with(|o| std::mem::take(&mut *o.borrow_mut()));
+                        let (kind, line, msg) = match r {
+                            Ok(Ok(())) => (String::new(), 0, String::new()),
+                            Ok(Err(e)) => run::err_of(&e),
+                            Err(p) => ("panic".to_owned(), 0, p),
+                        };
+                        res.push(json!({"out": o, "kind": kind, "line": line, "msg": msg, "src": src}));
+                    }
+                    res
+                });
+                mods_res.push(J::Array(res));
+            }
+            // and straight from the frozen module through the host API
+            let host = frozen
+                .get_owned("x")
+                .map(|v| v.by_ref(|x| run::encode(*x, &mut Vec::new())))
+                .map_err(|e| format!("{}", e))?;
+            Ok(json!({"a": {"out": a_out, "kind": a_err.0, "msg": a_err.2, "src": src_a}, "mods": mods_res, "host_x": host}))
+        }));
+        let rec = match r {
+            Ok(Ok(j)) => json!({"id": id, "status": "ok", "res": j}),
+            Ok(Err(e)) => json!({"id": id, "status": "error", "what": e}),
+            Err(p) => json!({"id": id, "status": "panic", "what": p}),
+        };
+        out.write(&rec)?;
+        out.flush()?;
+    }
+    out.finish()
+}
